@@ -306,7 +306,7 @@ func (x *Exec) loopEnv(st *State, fr *Frame, h *ssa.BasicBlock, lc *LoopContract
 	} else if fr.fn.Pkg != nil {
 		pkg = fr.fn.Pkg.Pkg.Path()
 	}
-	env := &specEnv{w: x.w, pkg: pkg, vars: vars, st: st, heap: st.heap, old: x.initHeap}
+	env := &specEnv{w: x.w, pkg: pkg, vars: vars, st: st, heap: st.heap, old: x.oldOf(st)}
 	if fr.isTop {
 		for k, v := range x.entryEnv {
 			if _, ok := vars[k]; !ok {
